@@ -134,11 +134,8 @@ pub struct ConnectCase {
 pub fn judge_connect(bytes: &[u8], seg: &Seg, flavour: Flavour) -> Result<Greeting, String> {
     // the bytes play the role of the greeting; nothing follows
     let want = refdec::classify_greeting(bytes);
-    let (greeting, rest): (&[u8], &[u8]) = match &want {
-        Greeting::Valid(_, n) => (&bytes[..*n], &bytes[*n..]),
-        _ => (bytes, b""),
-    };
-    let obs = run(flavour, greeting, rest, seg, 1);
+    // the segmentation applies to the greeting bytes themselves (offsets from the first byte)
+    let obs = run(flavour, b"", bytes, seg, 1);
     match &obs.terminal {
         Terminal::Panic(p) => return Err(format!("panicked: {p}")),
         Terminal::ReadBoundExceeded => return Err("read loop does not terminate".into()),
